@@ -413,7 +413,7 @@ func specGfpow(t T, p int) T {
 
 //@ func NewZeroMatrix
 //@   props C11 C07
-//@   requires mathint(rows) * mathint(columns) <= 70368744177664
+//@   requires rows <= 0 || columns <= 0 || mathint(rows) * mathint(columns) <= 70368744177664
 //@   panics rows <= 0 || columns <= 0
 //@   modifies nothing
 //@   ensures matOK(result) && result.rows == rows && result.columns == columns
@@ -421,7 +421,7 @@ func specGfpow(t T, p int) T {
 
 //@ func NewMatrixFromSlice
 //@   props C11 C07
-//@   requires mathint(rows) * mathint(columns) <= 70368744177664
+//@   requires rows <= 0 || columns <= 0 || mathint(rows) * mathint(columns) <= 70368744177664
 //@   panics rows <= 0 || columns <= 0 || mathint(len(elements)) != mathint(rows) * mathint(columns)
 //@   modifies nothing
 //@   ensures matOK(result) && result.rows == rows && result.columns == columns
@@ -515,7 +515,7 @@ func specGfpow(t T, p int) T {
 //@ func NewMatrixFromFunction
 //@   props C11 C07
 //@   note pure-param fn
-//@   requires mathint(rows) * mathint(columns) <= 70368744177664
+//@   requires rows <= 0 || columns <= 0 || mathint(rows) * mathint(columns) <= 70368744177664
 //@   panics rows <= 0 || columns <= 0
 //@   modifies nothing
 //@   ensures matOK(result) && result.rows == rows && result.columns == columns
